@@ -31,6 +31,8 @@ def main(tier, seed):
             prog = tooltier.backend_program(b, seed, i, avoid_known=False, extra_profile=(dict(opt_borrowed_params=True) if i % 5 == 2 else None))
             if i % 6 == 1 and tooltier.add_zst_error(prog, random.Random("c15z/%s/%s/%s" % (seed, i, b))):
                 tooltier.emit_rust.assign_abi_names(prog)
+            if i % 4 == 1:
+                tooltier.add_docs(prog, random.Random("c15doc/%s/%s/%s" % (seed, i, b)))
             if i % 3 == 0 and tooltier.add_special_methods(prog, random.Random("c15sp/%s/%s/%s" % (seed, i, b)), b):
                 tooltier.emit_rust.assign_abi_names(prog)
             if i % 10 == 4 and tooltier.add_static_opaque_refs(prog, random.Random("c15st/%s/%s/%s" % (seed, i, b))):
@@ -77,7 +79,8 @@ def main(tier, seed):
                               key={"backend": r["backend"], "kind": r["kind"]})
         elif r["kind"] == "panic":
             f = r["det"]["file"]
-            if f.startswith(IN_GATE):
+            # core/src/ast/docs.rs holds the docs URL generator, which only backends call while rendering (after lowering)
+            if f.startswith(IN_GATE) and f != "core/src/ast/docs.rs":
                 chk.inconc("p%d/%s panic inside the gate at %s (not past lowering): %s" % (r["idx"], r["backend"], f, r["det"]["msg"][:120]))
                 continue
             key = {"backend": r["backend"], "file": f, "panic": tooltier.norm_panic(r["det"]["msg"]),
